@@ -195,8 +195,16 @@ class Plot2D(Contract):
         line = ax.lines[0].get_xydata()
         want = np.c_[np.r_[before[:, xi], before[0, xi]], np.r_[before[:, yi], before[0, yi]]]
         bad = line.shape != want.shape or not np.allclose(line, want) or not np.array_equal(c.coordinates, before)
+        detail = "drawn line vs closed contour polyline: " + ("differs" if bad else "equal")
+        if case["sample"]:
+            # the scattered sample uses the same abscissa / ordinate columns as the line
+            sw = kw["sample"][:, [xi, yi]]
+            offs = [np.asarray(col.get_offsets(), dtype=float) for col in ax.collections]
+            hit = any(o.shape == sw.shape and np.allclose(o, sw) for o in offs)
+            detail += "; scattered sample vs the (abscissa, ordinate) columns of the given sample: " + ("equal" if hit else f"no scatter carries them (scatters of shapes {[o.shape for o in offs]})")
+            bad = bad or not hit
         plt.close(fig)
-        return {"confirmed": bool(bad), "detail": "drawn line vs closed contour polyline: " + ("differs" if bad else "equal")}
+        return {"confirmed": bool(bad), "detail": detail}
 
 
 @contract(U + "read_ec_benchmark_dataset", ["C20"], [dict(path="given"), dict(path="given", twice=True)], name="read_ec_benchmark_dataset")
